@@ -257,8 +257,10 @@ type R = Result<(), Ctl>;
 pub struct Evaluator<'a> {
     pub stack: Vec<Val>,
     loops: Vec<(i64, i64)>,
-    frames: Vec<HashMap<String, Val>>,
-    pub vars: BTreeMap<String, Val>,
+    frames: Vec<HashMap<NodeId, Val>>,
+    /// one cell per global declaration (keyed by the declaring node)
+    cells: HashMap<NodeId, Val>,
+    res: HashMap<NodeId, NodeId>,
     pub out: String,
     pub steps: u64,
     fuel: u64,
@@ -411,24 +413,81 @@ pub fn well_formed(prog: &[Node]) -> bool {
     c.ok
 }
 
-/// variables get a heap cell (nil) at build time even when nothing runs
-fn collect_vars(ns: &[Node], vars: &mut BTreeMap<String, Val>) {
-    for n in ns {
-        if let Kind::VarDef(name) = &n.kind {
-            vars.insert(name.clone(), Val::Nil);
+/// Lexical binding as a direct reading of the source gives it: a use of a name refers to the latest declaration
+/// of that name textually before it (locals: within the same definition; globals: anywhere earlier). Every
+/// declaration is its own variable, so a re-declaration shadows instead of overwriting.
+/// Returns use-node-id -> declaration-node-id, and name -> latest global declaration.
+pub fn resolve(prog: &[Node]) -> (HashMap<NodeId, NodeId>, BTreeMap<String, NodeId>) {
+    struct R {
+        res: HashMap<NodeId, NodeId>,
+        globals: Vec<(String, NodeId)>,
+    }
+    fn walk(r: &mut R, ns: &[Node], locals: &mut Vec<(String, NodeId)>) {
+        for n in ns {
+            match &n.kind {
+                Kind::VarDef(name) => r.globals.push((name.clone(), n.id)),
+                Kind::VarSet(name) | Kind::VarGet(name) => {
+                    if let Some((_, d)) = r.globals.iter().rev().find(|(g, _)| g == name) {
+                        r.res.insert(n.id, *d);
+                    }
+                }
+                Kind::Local(name) => locals.push((name.clone(), n.id)),
+                Kind::LocalGet(name) => {
+                    if let Some((_, d)) = locals.iter().rev().find(|(g, _)| g == name) {
+                        r.res.insert(n.id, *d);
+                    }
+                }
+                Kind::Def(_, _, body) => {
+                    let mut l = Vec::new();
+                    walk(r, body, &mut l);
+                }
+                Kind::If(t, e) => {
+                    walk(r, t, locals);
+                    if let Some(e) = e {
+                        walk(r, e, locals);
+                    }
+                }
+                Kind::Case(arms, d) => {
+                    for (p, b) in arms {
+                        walk(r, p, locals);
+                        walk(r, b, locals);
+                    }
+                    walk(r, d, locals);
+                }
+                Kind::BeginUntil(b) | Kind::BeginRepeat(b) | Kind::Do(b) => walk(r, b, locals),
+                Kind::BeginWhile(c, b) => {
+                    walk(r, c, locals);
+                    walk(r, b, locals);
+                }
+                _ => {}
+            }
         }
     }
+    let mut r = R { res: HashMap::new(), globals: vec![] };
+    let mut l = Vec::new();
+    walk(&mut r, prog, &mut l);
+    let mut latest = BTreeMap::new();
+    for (name, id) in &r.globals {
+        latest.insert(name.clone(), *id);
+    }
+    (r.res, latest)
 }
 
 impl<'a> Evaluator<'a> {
-    pub fn run(prog: &'a [Node], fuel: u64, init_stack: Vec<Val>, init_vars: BTreeMap<String, Val>) -> Outcome {
+    pub fn run(prog: &'a [Node], fuel: u64, init_stack: Vec<Val>, _init_vars: BTreeMap<String, Val>) -> Outcome {
         let mut defs = HashMap::new();
         collect_defs(prog, &mut defs);
+        let (res, latest) = resolve(prog);
+        let final_vars = |cells: &HashMap<NodeId, Val>| -> BTreeMap<String, Val> {
+            // variables get a heap cell (nil) at build time even when nothing runs; a name denotes its latest declaration
+            latest.iter().map(|(name, id)| (name.clone(), cells.get(id).cloned().unwrap_or(Val::Nil))).collect()
+        };
         let mut ev = Evaluator {
             stack: init_stack,
             loops: vec![],
             frames: vec![],
-            vars: init_vars,
+            cells: HashMap::new(),
+            res,
             out: String::new(),
             steps: 0,
             fuel,
@@ -447,10 +506,9 @@ impl<'a> Evaluator<'a> {
             o.fail = Some(f);
             o.build_failure = true;
             o.stack = ev.stack;
-            o.vars = ev.vars;
+            o.vars = BTreeMap::new();
             return o;
         }
-        collect_vars(prog, &mut ev.vars);
         match ev.seq(prog) {
             Ok(()) => {}
             Err(Ctl::Fail(f)) => o.fail = Some(f),
@@ -464,7 +522,7 @@ impl<'a> Evaluator<'a> {
             }
         }
         o.stack = ev.stack;
-        o.vars = ev.vars;
+        o.vars = final_vars(&ev.cells);
         o.out = ev.out;
         o.steps = ev.steps;
         o.unspecified |= ev.unspecified;
@@ -661,30 +719,40 @@ impl<'a> Evaluator<'a> {
             }
             Kind::Local(name) => {
                 let v = self.pop(n, 1)?;
+                let _ = name;
                 match self.frames.last_mut() {
                     Some(f) => {
-                        f.insert(name.clone(), v);
+                        f.insert(n.id, v);
                     }
                     None => self.unspecified = true,
                 }
             }
-            Kind::LocalGet(name) => match self.frames.last().and_then(|f| f.get(name)) {
-                Some(v) => self.stack.push(v.clone()),
-                None => {
-                    self.unspecified = true;
-                    self.stack.push(Val::Nil);
+            Kind::LocalGet(_) => {
+                let decl = self.res.get(&n.id).copied();
+                match decl.and_then(|d| self.frames.last().and_then(|f| f.get(&d))) {
+                    Some(v) => self.stack.push(v.clone()),
+                    None => {
+                        // reading a local whose declaration did not execute: left unspecified
+                        self.unspecified = true;
+                        self.stack.push(Val::Nil);
+                    }
                 }
-            },
-            Kind::VarDef(name) => {
-                let v = self.pop(n, 1)?;
-                self.vars.insert(name.clone(), v);
             }
-            Kind::VarSet(name) => {
+            Kind::VarDef(_) => {
                 let v = self.pop(n, 1)?;
-                self.vars.insert(name.clone(), v);
+                self.cells.insert(n.id, v);
             }
-            Kind::VarGet(name) => match self.vars.get(name) {
-                Some(v) => self.stack.push(v.clone()),
+            Kind::VarSet(_) => {
+                let v = self.pop(n, 1)?;
+                match self.res.get(&n.id).copied() {
+                    Some(d) => {
+                        self.cells.insert(d, v);
+                    }
+                    None => self.unspecified = true,
+                }
+            }
+            Kind::VarGet(_) => match self.res.get(&n.id).copied() {
+                Some(d) => self.stack.push(self.cells.get(&d).cloned().unwrap_or(Val::Nil)),
                 None => self.unspecified = true,
             },
             Kind::Bad(..) => self.unspecified = true,
